@@ -100,6 +100,7 @@ class Evaluator:
                  plain=False, assume=None):
         self.fn = fn
         self.assume = assume or {}       # parameter name -> abstract value
+        self.selfattrs = {}              # self.<attr> stored on this path
         self.sig = signature(fn, plain)
         self.fields = set(fields or ())
         self.props = props or {}          # name -> callable(evaluator) -> value
@@ -164,6 +165,10 @@ class Evaluator:
                 return ("typeof", NODE)
             return ("attr", NODE, a)
         if base == ("selfobj",):
+            # an attribute this very path has just stored reads back as the
+            # stored value
+            if a in self.selfattrs:
+                return self.selfattrs[a]
             return ("self", a)
         if a == "__class__":
             return ("typeof", base)
@@ -351,6 +356,11 @@ class Evaluator:
             base = self.ev(t.value)
             self.events.append(Event("attrwrite", t, arg=base, name=t.attr,
                                      value=v, in_loops=tuple(self.loops)))
+            if base == ("selfobj",):
+                if self.loops:
+                    self.selfattrs.pop(t.attr, None)
+                else:
+                    self.selfattrs[t.attr] = v
         elif isinstance(t, ast.Subscript):
             base = self.ev(t.value)
             k = self.ev(t.slice)
@@ -444,7 +454,8 @@ class Evaluator:
             if isinstance(f.value, ast.Name) and f.value.id in self.env \
                     and name in ("extend", "update") and len(args) == 1 \
                     and self.env[f.value.id][0] in ("lit", "seq", "extend",
-                                                    "binop", "call", "param"):
+                                                    "binop", "call", "param",
+                                                    "copy"):
                 prior = self.env[f.value.id]
                 if prior[0] == "lit":
                     self.env[f.value.id] = ("lit", prior[1],
@@ -512,9 +523,13 @@ class Evaluator:
                     if n in ("sorted", "reversed"):
                         return (n, a)
                     return ("call", n, args, kwargs)
+                if n in ("list", "tuple"):
+                    return ("copy", a)      # same items, a fresh object
                 return ("call", n, args, kwargs)
-            if n in ("immutabledict", "dict") and len(args) == 1 and not kwargs:
-                return args[0]
+            if n == "immutabledict" and len(args) == 1 and not kwargs:
+                return args[0]      # same content, and nobody can mutate it
+            if n == "dict" and len(args) == 1 and not kwargs:
+                return ("copy", args[0])    # same content, a fresh object
             # empty containers spelled as calls are the empty literals
             if not args and not kwargs:
                 if n in ("list", "tuple", "set", "frozenset"):
@@ -782,6 +797,49 @@ def summarize(fn, *, fields=(), props=None, loop_mode="1", assume_len=None,
         ps = ev.run_path(items)
         if ps is not None:
             out.append(ps)
+    return out
+
+
+def content(v):
+    """*v* with every ("copy", x) replaced by x: what a value holds, whichever
+    object holds it (list(x), tuple(x), dict(x) of an opaque x)"""
+    if isinstance(v, CondText):
+        return v
+    if isinstance(v, tuple):
+        if len(v) == 2 and v[0] == "copy":
+            return content(v[1])
+        return tuple(content(x) for x in v)
+    return v
+
+
+def case_split(v, limit=16):
+    """the variants of *v* with every conditional expression inside it resolved
+    to one of its arms (the same condition takes the same arm everywhere):
+    what the value is on each of the paths an if/else statement would have
+    made.  -> [value, ...]; [v] if there are too many conditions"""
+    conds = []
+
+    def collect(x):
+        if isinstance(x, tuple) and not isinstance(x, CondText):
+            if len(x) == 4 and x[0] == "ifexp" and str(x[1]) not in conds:
+                conds.append(str(x[1]))
+            for y in x:
+                collect(y)
+    collect(v)
+    if not conds or 2 ** len(conds) > limit:
+        return [v]
+    import itertools
+    out = []
+    for bits in itertools.product((True, False), repeat=len(conds)):
+        choice = dict(zip(conds, bits))
+
+        def subst(x):
+            if isinstance(x, tuple) and not isinstance(x, CondText):
+                if len(x) == 4 and x[0] == "ifexp":
+                    return subst(x[2] if choice[str(x[1])] else x[3])
+                return tuple(subst(y) for y in x)
+            return x
+        out.append(subst(v))
     return out
 
 
